@@ -15,8 +15,8 @@ def Pat.WF : Pat → Prop
   | .place l lens _ off => pyRot (segments 0 lens) off ≠ [] ∧ WFL l
   | .tuple l _ => WFL l
   | .switch l w => WFL l ∧ w.WF
-  | .switch1 _ _ => False
-  | .slide _ _ _ _ _ _ => False
+  | .switch1 l w => WFL l ∧ w.WF
+  | .slide l len step _ _ _ => WFL l ∧ len.WF ∧ step.WF
   | .series _ step _ => step.WF
   | .geom _ grow _ => grow.WF
   | .stutter p n => p.WF ∧ n.WF
@@ -63,8 +63,12 @@ theorem good_of_wf : ∀ p : Pat, p.WF → Good p := by
   | switch l w ih1 ih2 =>
     intro h; simp only [Pat.WF] at h
     exact good_switch (fun p hp => ih1 p hp (WFL_mem h.1 p hp)) (ih2 h.2)
-  | switch1 l w _ _ => intro h; simp only [Pat.WF] at h
-  | slide l len step start wrap r _ _ _ => intro h; simp only [Pat.WF] at h
+  | switch1 l w ih1 ih2 =>
+    intro h; simp only [Pat.WF] at h
+    exact good_switch1 (fun p hp => ih1 p hp (WFL_mem h.1 p hp)) (ih2 h.2)
+  | slide l len step start wrap r ih1 ih2 ih3 =>
+    intro h; simp only [Pat.WF] at h
+    exact good_slide start wrap r (fun p hp => ih1 p hp (WFL_mem h.1 p hp)) (ih2 h.2.1) (ih3 h.2.2)
   | series start step len ih => intro h; simp only [Pat.WF] at h; exact good_series start len (ih h)
   | geom start grow len ih => intro h; simp only [Pat.WF] at h; exact good_geom start len (ih h)
   | stutter p n ih1 ih2 => intro h; simp only [Pat.WF] at h; exact good_stutter (ih1 h.1) (ih2 h.2)
